@@ -32,7 +32,7 @@ def one(pd):
 
 
 if __name__ == '__main__':
-    dirs = sys.argv[1:] or sorted(glob.glob(os.path.join(HERE, 'benign', 'C*-b*')))
+    dirs = sys.argv[1:] or sorted(glob.glob(os.path.join(HERE, 'benign', 'C*-[a-z]*')))
     with ThreadPoolExecutor(int(os.environ.get('JOBS', '14'))) as ex:
         out = list(ex.map(one, dirs))
     n_alarm = 0
